@@ -149,8 +149,18 @@ func compileShared(src string) *starlark.Program {
 
 // executeWith runs src (or, if shared is non-nil, that compiled program) once
 // on a fresh thread.
+// reuseThread, if set, is the thread every execution runs on (the host keeps
+// one thread for successive programs) instead of a new one each time.
+var reuseThread *starlark.Thread
+
 func executeWith(src string, shared *starlark.Program, hook func()) (tr transcript) {
 	th := &starlark.Thread{Name: "c03"}
+	var stepsBefore uint64
+	if reuseThread != nil && hook == nil {
+		th = reuseThread
+		th.Uncancel()
+		stepsBefore = th.ExecutionSteps()
+	}
 	th.Print = func(_ *starlark.Thread, msg string) { tr.Out = append(tr.Out, "print:"+msg) }
 	th.Load = func(_ *starlark.Thread, module string) (starlark.StringDict, error) { return loadModule(module) }
 	stime.SetNow(th, func() (time.Time, error) { return fixedNow, nil })
@@ -178,7 +188,7 @@ func executeWith(src string, shared *starlark.Program, hook func()) (tr transcri
 		th.SetMaxExecutionSteps(1)
 		th.OnMaxSteps = func(*starlark.Thread) { hook() }
 	} else {
-		th.SetMaxExecutionSteps(200000)
+		th.SetMaxExecutionSteps(stepsBefore + 200000)
 	}
 	defer func() {
 		if r := recover(); r != nil {
@@ -192,7 +202,7 @@ func executeWith(src string, shared *starlark.Program, hook func()) (tr transcri
 	} else {
 		g, err = starlark.ExecFileOptions(fileOpts, th, "p.star", src, pre)
 	}
-	tr.Steps = th.ExecutionSteps()
+	tr.Steps = th.ExecutionSteps() - stepsBefore
 	names := g.Keys()
 	vals := make([]starlark.Value, len(names))
 	for i, n := range names {
@@ -460,6 +470,20 @@ func checkHistory(src string, st *fw.Stats, report func(k kase, what string)) {
 		st.Schedules++
 		if !again.equal(first) {
 			report(kase{Kind: "history", Src: src, B: bi}, fmt.Sprintf("transcript changed after an unrelated execution: %s vs %s", again, first))
+			return
+		}
+	}
+	// the same on ONE thread that the host keeps for successive executions (a thread
+	// recycles its frames): every B, then A, must give A's pristine transcript
+	reuseThread = &starlark.Thread{Name: "c03-reused"}
+	defer func() { reuseThread = nil }()
+	for bi, b := range historyPrograms {
+		execute(b, nil)
+		again := execute(src, nil)
+		st.Evals += 2
+		st.Schedules++
+		if !again.equal(first) {
+			report(kase{Kind: "history", Src: src, B: 1000 + bi}, fmt.Sprintf("transcript on a thread that has run another program before differs from the transcript on a fresh thread: %s vs %s", again, first))
 			return
 		}
 	}
